@@ -3,6 +3,10 @@
 import json, subprocess
 
 CHECKS = {
+ "C18": dict(category="fault_enumeration", design="§3 C18",
+   text="Fault enumeration on the real evy binary with strace -e inject: for each configuration (5 inputs x 6 modes x permission bits) a baseline run collects the ordered list of file-system syscalls touching the scratch directory; every element is then failed once with each of ENOSPC/EIO/EACCES and once killed with SIGKILL on entry; coverage is verified from the strace log and gaps are reported. After every run the target holds its complete original or complete formatted text, mode bits are unchanged, unparsable files are untouched with non-zero exit, failures are reported, and -c exits 0 exactly for formatted input without modifying anything.",
+   note="Process kill, not power loss; strace cannot produce partial writes; a few fault points per run may be missed because Go moves the goroutine between threads (listed as gaps, exhaustive:false).",
+   technique="exhaustive single-fault and kill-point enumeration over the recorded syscall history of the real binary (strace injection)"),
  "C19": dict(category="model_checking", design="§3 C19",
    text="All sequences of length <= 3 (quick) / 4 (thorough) over ~55 drawing and style commands run through the real evaluator with the real SVG platform and WriteSVG; the output must parse as XML; flattening group inheritance and root attributes must give exactly the shape list of a reference pen state machine written from docs/builtins.md (one shape per command, in order, geometry x10 with y flipped for every kind of shape, stroke/fill/width/dash/linecap/font in effect at drawing time); out-of-domain arguments must terminate with completion or the documented panic; single commands also go through the evy run --svg-out binary.",
    note="Colour strings are compared literally. Recorded findings (frozen by golden files): ellipse y not flipped, ellipse arcs ignored, font baseline written raw, text fill taken from stroke, grid inherits pen width.",
